@@ -11,8 +11,6 @@ func prop(p *Property) { properties[p.ID] = p }
 var notApplicable = []naEntry{
 	{"C05", "Correctness of Next/Advance is a relation between runtime cursor values (two roaring cursors and two compressed-stream positions) over arbitrary call histories; no structural clause short of symbolic execution decides it, so static analysis gives no verdict (the wire-arity and length-prefix rules of C01/C04 protect the stream format it relies on but are not a verdict on navigation)."},
 	{"C17", "A metamorphic relation between the outputs of different merge trees: purely a value property over runtime data; its structural ingredients are already those checked under C02/C03/C08, and no static rule in reach decides the equality itself."},
-	{"C01", "check under construction"}, {"C02", "check under construction"},
-	{"C07", "check under construction"},
 }
 
 func init() {
@@ -43,7 +41,7 @@ func init() {
 		Level:       "Static rules deciding named necessary conditions (no un-clamped look-ahead into the decompressed block, every access behind num < numDocs, the visitor's result alone controls the loop, writers and reader use the same block size). Partial: grouping/order of values and the re-encode arithmetic are value properties and not decided.",
 		Explanation: "LOOKAHEAD-CLAMP enumerates every []byte slice expression whose upper bound is offset+constant and requires the bound to be clamped by a comparison with len/cap of the same buffer (siblings copyStoredDocs and getDocStoredOffsets are both covered); VISIT-GUARD proves by dominance that every read and every visitor call in visitDocument is behind num < footer.numDocs and that the loop variable is defined only by the visitor's result; BLOCK-SELECT folds the constant passed to newChunkedDocumentCoder by both writers and the reader's divisor and requires them equal.",
 		NotCovered:  "grouping and order of delivered values, correctness of the merge re-encode and of the byte-copy path arithmetic",
-		Uses:        []RuleUse{{"LOOKAHEAD-CLAMP", ""}, {"VISIT-GUARD", ""}},
+		Uses:        []RuleUse{{"LOOKAHEAD-CLAMP", ""}, {"VISIT-GUARD", ""}, {"BLOCK-SELECT", ""}, {"STORED-OFFSET-SOURCE", ""}, {"RESET-COMPLETE", ""}, {"ESCAPE-FRESH", ""}},
 	})
 	prop(&Property{
 		ID:          "C08",
@@ -61,7 +59,7 @@ func init() {
 		Level:       "Static rules deciding named necessary conditions (never a nil dereference for unknown fields, both encodings reach the union, the cached dictionary is replaced whenever the field changes). Partial: set equality itself is a value property.",
 		Explanation: "NIL-RESULT covers the (*Segment).dictionary call in DocsMatchingTerms (path-sensitive, phi-aware: the cached dictionary variable is a loop phi); ONEHIT-AWARE covers OrInto; FIELD-CACHE proves the dictionary reload is control-dependent on thisField != lastField and that lastField and the cached dictionary are updated together on that path only.",
 		NotCovered:  "equality of the returned set with the union (value property)",
-		Uses:        []RuleUse{{"NIL-RESULT", ""}, {"ONEHIT-AWARE", ""}},
+		Uses:        []RuleUse{{"NIL-RESULT", ""}, {"NIL-FIELD", ""}, {"ONEHIT-AWARE", ""}, {"FIELD-CACHE", ""}},
 	})
 }
 
@@ -151,7 +149,7 @@ func init() {
 		Level:       "Static rules deciding agreement clauses for every input: the writer and the reader of each of the 11 on-disk records use the same sequence of primitives (kinds, widths, loop structure, byte order; tail-first trailers reversed), every section the loader parses is present on every writer path or skipped under a condition the loader also tests, layout adjacency assumptions hold, the in-memory image is the written bytes, WriteTo returns data+footer length. Partial: identical ANSWERS after load are a value property.",
 		Explanation: "WIRE-AGREE extracts, from the type-checked AST, the source-ordered sequence of wire primitives (binary.Write/PutUvarint/writeUvarints/PutUintN/raw Write vs binary.Uvarint/UintN/raw Data.Read) of each writer and reader region with loops as nested units and compares the 11 pairs (builder and merger writers must also agree with each other; footer fields must correspond by name; parseFooter's offsets must form a contiguous tail of footerLen bytes with widths matching their decodes). SECTION-PRESENT proves by dominance that load() always runs the three section loaders and that each section is written on every successful path of both data-section writers, or skipped exactly on the zero-document branch the loader also guards. ADJACENCY, MEM-IMAGE and LEN-RETURN pin the implicit layout assumptions, the builder's memory image and the byte counts.",
 		NotCovered:  "identical answers after load (value property); file-backed vs memory-backed look-ahead near the end of data (layout arithmetic)",
-		Uses:        []RuleUse{{"WIRE-AGREE", ""}, {"SECTION-PRESENT", ""}, {"ADJACENCY", ""}, {"MEM-IMAGE", ""}, {"LEN-RETURN", ""}},
+		Uses:        []RuleUse{{"WIRE-AGREE", ""}, {"SECTION-PRESENT", ""}, {"ADJACENCY", ""}, {"MEM-IMAGE", ""}, {"LEN-RETURN", ""}, {"TAIL-READ-BOUNDED", ""}, {"DV-SECTION-COMPLETE", ""}},
 	})
 	prop(&Property{
 		ID:          "C10",
@@ -161,5 +159,35 @@ func init() {
 		Explanation: "FMT-CONST compares 27 named format constants, ~35 use-site constants (block size 128 at both coders and the reader's divisor; doc-value chunk arguments (1024,0,0) at three sites; chunk mode 1025 at New/merge; getChunkSize's bounds; bit-level encoder constants; termSeparator 0xff) and the roaring/vellum/compress versions with golden/format_v2.json. FMT-SEQ compares the wire signature of 33 writer/reader functions with the golden ones (this catches symmetric changes WIRE-AGREE accepts by construction). FMT-CODEC pins zstd EncodeAll/DecodeAll as the only codec; CRC-UPDATE pins CRC-32 IEEE. The compression level is reported, not gated (any level is readable by the reference reader).",
 		NotCovered:  "roaring/vellum serialisation internals (versions pinned and compared); the arithmetic of the encoders beyond their constants",
 		Uses:        []RuleUse{{"FMT-CONST", ""}, {"FMT-SEQ", ""}, {"FMT-CODEC", ""}, {"CRC-UPDATE", ""}, {"WIRE-AGREE", ""}},
+	})
+}
+
+func init() {
+	prop(&Property{
+		ID:          "C01",
+		Title:       "A built segment returns exactly the postings its documents imply",
+		Technique:   "static analysis: SSA def-use agreement rules between the builder and the reader (chunk-size derivation, chunk index, location length prefix vs. encoded values, field order, sibling composite literals) — structural necessary conditions only",
+		Level:       "Static rules deciding named NECESSARY conditions of the behaviour, not the behaviour: writer and reader derive the chunk size from the same three quantities and index chunks the same way; the location byte-count prefix counts exactly the quantities that are encoded; _id first / sorted field order; sibling literals agree; the reused encoders are fully reset. The equality of postings, frequencies, norms and locations for every batch is a value property and is NOT decided.",
+		Explanation: "CHUNK-AGREE checks the getChunkSize call of the builder (s.chunkMode, GetCardinality of the very bitmap writePostings serialises, len(s.results) — and that newWithChunkMode records the same mode and length in the footer) against the reader's (footer.chunkMode, GetCardinality of the bitmap just deserialised, footer.numDocs), that both encoders are re-sized with the result, and that both sides compute the chunk index as docNum / chunkSize (CHUNK-INDEX for the encoders). LENPREFIX-AGREE compares, as a multiset of normalised expression trees, the four arguments of totalUvarintBytes with the four values encoded per location and pins numUvarintBytes' shape. FIELD-ORDER, SIBLING-LITERAL, RESET-COMPLETE (the shared encoders) and ONEHIT-AWARE complete the set.",
+		NotCovered:  "the two-pass accumulation arithmetic, completeness of terms/postings, norms, terms with more than 1024 documents (values)",
+		Uses:        []RuleUse{{"CHUNK-AGREE", ""}, {"CHUNK-INDEX", ""}, {"LENPREFIX-AGREE", ""}, {"FIELD-ORDER", ""}, {"SIBLING-LITERAL", ""}, {"RESET-COMPLETE", ""}},
+	})
+	prop(&Property{
+		ID:          "C02",
+		Title:       "A merge is indistinguishable from rebuilding the surviving documents",
+		Technique:   "static analysis: SSA def-use and dominance rules over the merger (remapped document numbers at every encoder/bitmap site, parallel-slice provenance, fast-path and 1-hit guards, chunk-size derivation, insert guard) — structural necessary conditions only",
+		Level:       "Static rules deciding named NECESSARY conditions: every document number written is the remapped one, location field ids use the merged map, doc values are re-added under new numbers and dropped ones skipped, the parallel per-iterator slices come from one filtered result, the byte-copy path is taken only for identical field lists without deletions, 1-hit encoding only under its full conjunction, chunk size from the footer quantities, terms inserted only with postings. Observational equality with a rebuild is a value property and is NOT decided.",
+		Explanation: "REMAP (mergeTermFreqNormLocs, buildMergedDocVals visitor, persistMergedRestField), CHUNK-AGREE (prepareNewTerm traced through its unique call chain to the values stored in the merged footer), LENPREFIX-AGREE, FASTPATH-GUARD (+ mergeFields compares every field of every segment), INSERT-GUARD, ONEHIT-GUARD, FIELD-ORDER (mergeFields), STORED-OFFSET-SOURCE, FIELDID-LANE, DV-SECTION-COMPLETE.",
+		NotCovered:  "k-way enumeration order, the re-encoding arithmetic, correctness of the stored-field byte copy (values)",
+		Uses:        []RuleUse{{"REMAP", ""}, {"CHUNK-AGREE", ""}, {"LENPREFIX-AGREE", ""}, {"FASTPATH-GUARD", ""}, {"INSERT-GUARD", ""}, {"ONEHIT-GUARD", ""}, {"FIELD-ORDER", ""}, {"STORED-OFFSET-SOURCE", ""}, {"FIELDID-LANE", ""}, {"DV-SECTION-COMPLETE", ""}},
+	})
+	prop(&Property{
+		ID:          "C07",
+		Title:       "Doc values return exactly each document's terms for the requested fields",
+		Technique:   "static analysis: constant folding at the three chunk-size sites, SSA def-use rules for separator/payload identity, section completeness, chunk index, per-segment field-id lane, clone discipline and chunk-cache coherence — structural necessary conditions only",
+		Level:       "Static rules deciding named NECESSARY conditions: writers and reader chunk doc values by the same constant, the chunk index is docNum/that constant, terms are stored unmodified followed by the separator the reader splits on, every recorded section has its trailer, the chunk cache is coherent across chunk switches, per-segment readers are indexed by that segment's field id, merged doc values are re-added under new numbers. Which terms a document gets back (binary search, ordering) is a value property and is NOT decided.",
+		Explanation: "DV-FACTOR-AGREE, CHUNK-INDEX (content coder), DV-SEPARATOR, DV-SECTION-COMPLETE, FIELDID-LANE, REMAP (DV-REMAP part), CLONE-DISCIPLINE, CACHE-COHERENT, RESET-COMPLETE (cloneInto) and the two doc-value pairs of WIRE-AGREE.",
+		NotCovered:  "the header binary search, chunk-cache logic across visiting orders beyond coherence, sorted term order (values)",
+		Uses:        []RuleUse{{"DV-FACTOR-AGREE", ""}, {"CHUNK-INDEX", ""}, {"DV-SEPARATOR", ""}, {"DV-SECTION-COMPLETE", ""}, {"FIELDID-LANE", ""}, {"REMAP", ""}, {"CLONE-DISCIPLINE", ""}, {"CACHE-COHERENT", ""}, {"WIRE-AGREE", ""}},
 	})
 }
